@@ -694,6 +694,23 @@ func replayFile(out *vc.Out, path string) {
 				os.Exit(3)
 			}
 			emitRTL(out, pk, sizes, tailErr, rate)
+		case "dx":
+			i := 0
+			for i < len(toks) && toks[i] != "out" {
+				i++
+			}
+			inb, sizes, tailErr, err := parseCaseRT(append([]string{"rt"}, toks[1:i]...))
+			if err != nil || i >= len(toks) {
+				fmt.Fprintln(os.Stderr, "bad corpus line:", err)
+				os.Exit(3)
+			}
+			no, _ := strconv.Atoi(toks[i+1])
+			var outb []pkt
+			for j := 0; j < no; j++ {
+				ty, _ := strconv.Atoi(toks[i+2+3*j])
+				outb = append(outb, pkt{ty, toks[i+3+3*j] == "1", vc.UnHex(toks[i+4+3*j])})
+			}
+			emitDX(out, inb, sizes, tailErr, outb)
 		case "rtcap":
 			ty, _ := strconv.Atoi(toks[1])
 			sz, _ := strconv.Atoi(toks[3])
@@ -725,6 +742,7 @@ func main() {
 		switch *mode {
 		case "rt":
 			genRT(out, r, *tier == "thorough")
+			genDX(out, vc.NewRand(*seed+5), *tier == "thorough")
 		case "ws":
 			genRTW(out, r, *tier == "thorough")
 		case "cw":
